@@ -54,6 +54,21 @@ CHECKS.update({
         ref="DESIGN.md section 4 C16"),
 })
 
+CHECKS.update({
+    "C12": dict(
+        technique="metaclass-MRO linearisation + CFG must-pass (cooperative super() chain), registry/encoder-parser pairing table (EXHAUST) with finite-domain partial evaluation of the parsers' isinstance dispatch, AST normal forms of the dump/parse defaults and constant handling",
+        text="Decides the structural conditions without which no instance can round-trip: the encoder hook of every schema class is installed (cooperative metaclass chain), every custom value type has an encoder and a parser accepting the encoder's output, "
+             "dict/json/bytes/parse_raw agree on defaults and order, constants are forced on input and inherited per class.",
+        note="Not decided: parse(serialise(x)) == x for all instances (run-time equality, third-party pydantic / isodate / pint behaviour).",
+        ref="DESIGN.md section 4 C12"),
+    "C14": dict(
+        technique="BLIND rule (no truthiness use of merged values), FRAME rule (no store / in-place mutator / augmented assignment on anything derived from the operands), CFG edge-dominance for the partial-of-partial domain and the conflict policy",
+        text="Decides necessary conditions of the monoid laws on every path of the merge code: values are never tested for truthiness (identity law for falsy values), the result is built on an unconditional copy and operands are never mutated, "
+             "get_partial is only applied to non-partial values and class compatibility is tested on normalised values, conflicts raise unless overwriting is allowed.",
+        note="Not decided: associativity and identity for all triples of partial instances (run-time algebra), round trip through to_partial/from_partial.",
+        ref="DESIGN.md section 4 C14"),
+})
+
 REASON_PENDING = "check not built yet (build in progress; see DESIGN.md section 4 for the planned static rules)"
 NOT_APPLICABLE = {}
 
